@@ -388,6 +388,7 @@ class tensor:
             dims = np.arange(0, self.ndims)
 
         dims, _ = tt_dimscheck(self.ndims, dims=dims)
+        assert np.all(dims < self.ndims), "dims must contain values in [0,self.dims)"
 
         if dims.size == 0:
             return self.copy()
